@@ -15,7 +15,8 @@ const (
 	HkRenderer
 	HkStatic
 	HkToken
-	HkReqLogger // maps a request-scoped *log.Logger with its own sink (placed in front of Logger)
+	HkReqLogger       // maps a request-scoped *log.Logger with its own sink (placed in front of Logger)
+	HkUpstreamHeaders // an earlier middleware that pre-sets response headers (Content-Type, X-Upstream) for whoever answers
 )
 
 // HSpec is one handler of the set-up program.
@@ -54,14 +55,15 @@ type Node struct {
 
 // StaticSpec configures flamego.Static in the chain.
 type StaticSpec struct {
-	Prefix       string
-	Index        string
-	ETag         bool
-	Expires      bool
-	CacheControl bool
-	Logging      bool
-	UseDirectory bool // pass StaticOptions.Directory instead of FileSystem
-	DefaultDir   bool // pass neither: the default directory "public" below the working directory
+	Prefix        string
+	Index         string
+	ETag          bool
+	Expires       bool
+	CacheControl  bool
+	Logging       bool
+	UseDirectory  bool // pass StaticOptions.Directory instead of FileSystem
+	DefaultDir    bool // pass neither: the default directory "public" below the working directory
+	AlsoDirectory bool // with a FileSystem: set Directory as well (to a directory outside the tree); FileSystem must win
 }
 
 // Setup is the whole set-up program of one flamego instance.
@@ -517,6 +519,8 @@ func (s *Setup) Describe() []string {
 				p = append(p, "token")
 			case HkReqLogger:
 				p = append(p, "request-logger")
+			case HkUpstreamHeaders:
+				p = append(p, "upstream-headers")
 			}
 		}
 		return strings.Join(p, ",")
